@@ -8,7 +8,7 @@ MC_DomH5 == {9}
 MC_DomHDKG == {4}
 MC_DomHR == {1}
 MC_DomHID == {1}
-MC_Sizes == (2..70) \cup {100,128,129,200}
+MC_Sizes == (2..40) \cup {63,64,65,100,128}
 MC_Forms == {"bin","json","parts"}
 MC_Key == 200
 MC_Coeff == 3
